@@ -368,6 +368,7 @@ func c13Finish(d *fw.D) {
 		}
 		return true
 	}
+	aloneDiffers := map[int]bool{} // configurations that already differ between the flavours when built alone
 	// (1) alone, plain flavour vs alone, nomemo flavour
 	for _, c := range pool {
 		ap, an := alone["plain"][c.Idx], alone["nomemo"][c.Idx]
@@ -384,6 +385,7 @@ func c13Finish(d *fw.D) {
 		}
 		d.Count("alone_cross_flavour_compared", 1)
 		if !eq(ap.Hashes, an.Hashes) {
+			aloneDiffers[c.Idx] = true
 			cs := c13SingleCase(c)
 			cs.Expect = map[int][]c13Out{c.Idx: an.Outs}
 			bat := c13Battery(c.Family)
@@ -458,11 +460,18 @@ func c13Finish(d *fw.D) {
 							cfgs[s.Cfg] = pool[s.Cfg]
 						}
 					}
+					via := ""
 					for _, c := range cfgs {
 						roles = append(roles, c13RoleBase(c.Role))
+						if aloneDiffers[c.Idx] {
+							via = c13RoleBase(c.Role)
+						}
 					}
 					sort.Strings(roles)
-					if len(roles) <= 2 {
+					if via != "" {
+						// one of the configurations already differs between the flavours on its own: same root cause
+						cls += ":via-alone:" + via
+					} else if len(roles) <= 2 {
 						cls += ":" + strings.Join(roles, "-vs-")
 					} else {
 						cls += ":mixed"
@@ -507,14 +516,16 @@ func init() {
 			var bs []fw.Batch
 			add := func(fl string, p c13Params, procs int) {
 				raw, _ := json.Marshal(p)
-				bs = append(bs, fw.Batch{Index: len(bs), Flavour: fl, Params: raw, GOMAXPROCS: procs, TimeoutS: 3600})
+				bs = append(bs, fw.Batch{Index: len(bs), Flavour: fl, Params: raw, GOMAXPROCS: procs, TimeoutS: 14400})
 			}
 			// long batches first so that the short ones fill the gaps
+			for g := 0; g < sz.seqGroups; g++ {
+				add("plain", c13Params{Mode: "seq", Group: g, Groups: sz.seqGroups}, 0)
+			}
 			for g := 0; g < sz.concBatches; g++ {
 				add("race", c13Params{Mode: "conc", Group: g}, 4)
 			}
 			for g := 0; g < sz.seqGroups; g++ {
-				add("plain", c13Params{Mode: "seq", Group: g, Groups: sz.seqGroups}, 0)
 				add("nomemo", c13Params{Mode: "seq", Group: g, Groups: sz.seqGroups}, 0)
 			}
 			for _, c := range pool {
